@@ -442,13 +442,15 @@ def to_jsonable(x):
 # correspondence-tied).  `generate()` returns the text of build/<ID>/GenTN.v; coq/props/C07.v and
 # C08.v prove these regenerated definitions equal to / sufficient for what the model uses, so the
 # theorems are re-checked against what the source says on every run.
-#   translated (structurally):  merge's fresh-id arithmetic and join validation, del_axes,
+#   translated (structurally):  merge's fresh-id arithmetic and join validation (range, dimension, final test of the
+#       leg-count refusal), del_axes,
 #       build_contraction_tree's first intermediate id and bump rule, as_einsum's sort key and
 #       axes_map rule, every `return False` condition of is_consistent, the preconditions of
 #       rename_tensor (public guard + delegation) / _rename_tensor / rename_bond / SymbolicBond /
 #       SymbolicTensor.transpose (normalisation of negative axes, permutation test, selection)
 #   pinned (normalised source text must equal the expected text, else Unsupported):
-#       the loop skeleton of is_consistent, the pair-repetition test, the first-occurrence rule
+#       the loop skeleton of is_consistent, the pair-repetition test, the first-occurrence rule,
+#       merge's leg-count refusal (MERGE_LEGS_GUARD; model TNModel.joins_starve)
 import ast as _ast
 import pyx as _pyx
 
@@ -758,6 +760,23 @@ def _expect(cond, msg):
         raise _Unsupported(msg)
 
 
+# merge's refusal of joins that would leave a (fused) bond with fewer than two legs
+# (proposed_fixes/C08-merge-refuses-joins-that-starve-a-bond.diff): pinned; model = TNModel.joins_starve
+MERGE_LEGS_GUARD = """
+nets = (self, other)
+open_bids = {(i, joinax[i]): (i, nets[i].tensors[-1].bids[joinax[i]]) for joinax in join_axes for i in (0, 1)}
+fused_bids = dict(open_bids)
+for joinax in join_axes:
+    bid0, bid1 = fused_bids[0, joinax[0]], fused_bids[1, joinax[1]]
+    fused_bids = {ax: (bid0 if bid == bid1 else bid) for ax, bid in fused_bids.items()}
+for fbid in set(fused_bids.values()):
+    axes = [ax for ax in fused_bids if fused_bids[ax] == fbid]
+    num_legs = sum(len(nets[i].bonds[bid].tids) for i, bid in set(open_bids[ax] for ax in axes))
+    if num_legs - len(axes) < 2:
+        raise ValueError("...")
+"""
+
+
 IC_SKELETON = [
     "if:0", "for k, tensor in self.tensors.items()", "if:1", "for bid in tensor.bids", "if:2", "bond = self.bonds[bid]", "if:3",
     "end", "end",
@@ -853,12 +872,35 @@ def generate():
     # join_axes that precedes every statement changing state, in this order (the third test indexes
     # shape with joinax[k], which is only the k-th entry because the tests in front have excluded k < 0)
     gs = _guards(mg)
-    _expect(len(gs) == 3, "merge must have exactly three ValueError guards (two range tests, the dimension test), found %d" % len(gs))
+    _expect(len(gs) == 4, "merge must have exactly four ValueError guards (two range tests, the dimension test, the test that every "
+                          "fused bond keeps two legs), found %d" % len(gs))
     jloops = [st for st in _pyx.body_nodoc(mg) if isinstance(st, _ast.For) and _u(st.iter) == "join_axes" and _u(st.target) == "joinax"]
-    _expect(len(jloops) == 2, "merge must loop twice over join_axes (validation, joining)")
-    _expect(list(jloops[0].body) == gs, "the validation loop of merge must consist of exactly the three guards")
-    first_change = [i for i, st in enumerate(_pyx.body_nodoc(mg)) if not (isinstance(st, _ast.If) and _u(st.test) == "join_axes is None")][0]
-    _expect(_pyx.body_nodoc(mg)[first_change] is jloops[0], "the validation loop must be the first statement of merge after the default for join_axes")
+    _expect(len(jloops) == 3, "merge must loop three times over join_axes (validation, fusing the labelled bonds for the leg count, joining)")
+    _expect(list(jloops[0].body) == gs[:3], "the validation loop of merge must consist of exactly the first three guards")
+    mbody = _pyx.body_nodoc(mg)
+    first_change = [i for i, st in enumerate(mbody) if not (isinstance(st, _ast.If) and _u(st.test) == "join_axes is None")][0]
+    _expect(mbody[first_change] is jloops[0], "the validation loop must be the first statement of merge after the default for join_axes")
+    # the leg-count refusal: PINNED statement by statement (ast equality with MERGE_LEGS_GUARD), directly behind the
+    # validation loop and in front of every statement that changes state; only its final test is translated
+    want = _ast.parse(MERGE_LEGS_GUARD).body
+    got = mbody[first_change + 1: first_change + 1 + len(want)]
+    _expect(len(got) == len(want), "merge ends before the leg-count refusal")
+    for k, (g, w) in enumerate(zip(got, want)):
+        if k == len(want) - 1:
+            _expect(isinstance(g, _ast.For) and not g.orelse and _ast.dump(g.target) == _ast.dump(w.target) and _ast.dump(g.iter) == _ast.dump(w.iter)
+                    and len(g.body) == len(w.body) and all(_ast.dump(a) == _ast.dump(b) for a, b in zip(g.body[:-1], w.body[:-1]))
+                    and g.body[-1] is gs[3],
+                    "the loop over the fused bonds in merge's leg-count refusal changed: " + _u(g)[:300])
+        else:
+            _expect(_ast.dump(g) == _ast.dump(w), "statement %d of merge's leg-count refusal changed: got `%s`, expected `%s`"
+                    % (k, _u(g)[:200], _u(w)[:200]))
+    _expect(got[3] is jloops[1], "the second loop over join_axes must be the fusing loop of the leg-count refusal")
+    _expect(_u(mbody[first_change + 1 + len(want)]) == "num_open_axes_orig = self.num_open_axes",
+            "the leg-count refusal must be followed by `num_open_axes_orig = self.num_open_axes`: " + _u(mbody[first_change + 1 + len(want)])[:120])
+    c, t = X({"num_legs": ("legs", "Z"), "len(axes)": ("naxes", "Z")}).e(gs[3].test)
+    _expect(t == "bool", "leg-count guard type")
+    out.append("(* legs = number of legs of the bonds fused into one, naxes = number of its to-be removed open legs *)\n" +
+               _defn("gen_merge_class_refused", [("legs naxes", "Z")], c, "bool"))
     for k in (0, 1):
         tst = gs[k].test
         _expect(isinstance(tst, _ast.BoolOp) and isinstance(tst.op, _ast.Or) and _u(tst.values[0]) == "joinax[%d] < 0" % k,
@@ -866,7 +908,7 @@ def generate():
     jenv = {"joinax[0]": ("j0", "Z"), "joinax[1]": ("j1", "Z"), "self.num_open_axes": ("n1", "nat"), "other.num_open_axes": ("n2", "nat"),
             "self.shape": ("s1", "nlist"), "other.shape": ("s2", "nlist")}
     cs = []
-    for k, g in enumerate(gs):
+    for k, g in enumerate(gs[:3]):
         c, t = X(jenv, nonneg=("joinax[0]", "joinax[1]") if k == 2 else ()).e(g.test)
         _expect(t == "bool", "guard type")
         cs.append(c)
